@@ -85,8 +85,14 @@ def gen_history(rng, ctx):
             ann += [(a, None) for a in H.unrelated(rng, 1) if not str(a[0]).startswith(('DYLD_', 'PERF_', 'DBG_DYLD'))]
     samples = []
     smp = []      # sampler thread program
+    big = rng.random() < 0.05
+    if big:      # hundreds of images, very deep stacks
+        addr_pool += [rng.getrandbits(44) | 0x1000 for _ in range(300)]
+        for a in rng.sample(addr_pool, 200):
+            ann.append((H.uuid_record('DYLD_uuid_map_a', rng.randbytes(16), a), ('map', a, None)))
+        ann = [(x, (t[0], t[1], x[2][:16]) if t and t[0] == 'map' and t[2] is None else t) for x, t in ann]
     for k in range(rng.randrange(1, 5)):
-        depth = rng.choice((0, 1, 3, 4, 5, 8, 13, 40))
+        depth = rng.choice((0, 1, 3, 4, 5, 8, 13, 40)) if not big else rng.choice((128, 255, 256, 257, 600))
         frames = []
         for _ in range(depth):
             c = rng.random()
@@ -255,7 +261,7 @@ def run(ctx):
     install_invariant()
     res = core.Result()
     rng = ctx.rng
-    for _ in range(ctx.pick(250, 5000)):
+    for _ in range(ctx.pick(300, 25000)):
         one_history(res, rng, ctx)
     res.count('invariant_evaluations', Inv.evaluations)
     for f in Inv.failures:
